@@ -156,3 +156,52 @@ def cache_store_dependencies(fn, caches):
             dep_params = {p for p in params if p in val_names}
             out.append((n, n.targets[0].value.id, key_names, key_attrs, dep_params))
     return out
+
+
+def local_memo_stores(fn):
+    """memoisation inside a function:  `if K not in D: D[K] = V`  (no else branch touching D) for a local dict D.
+    yield (if-node, D, key expr, loop variables the stored value depends on, loop variables the key depends on).
+    Dependencies are followed through the local assignments of fn (names only)."""
+    defs = {}
+    loopvars = set()
+    for n in walk_local(fn):
+        if isinstance(n, ast.Assign):
+            names = []
+            for t in n.targets:
+                names += [x.id for x in ast.walk(t) if isinstance(x, ast.Name) and isinstance(x.ctx, ast.Store)]
+            used = {x.id for x in ast.walk(n.value) if isinstance(x, ast.Name)}
+            for nm in names:
+                defs.setdefault(nm, set()).update(used)
+        if isinstance(n, ast.For):
+            for x in ast.walk(n.target):
+                if isinstance(x, ast.Name):
+                    loopvars.add(x.id)
+
+    def closure(names, stop=()):
+        seen, todo = set(), list(names)
+        while todo:
+            x = todo.pop()
+            if x in seen or x in stop:
+                continue
+            seen.add(x)
+            if x not in loopvars:
+                todo.extend(defs.get(x, ()))
+        return seen
+
+    for n in walk_local(fn):
+        if not (isinstance(n, ast.If) and isinstance(n.test, ast.Compare) and len(n.test.ops) == 1
+                and isinstance(n.test.ops[0], ast.NotIn) and isinstance(n.test.comparators[0], ast.Name) and not n.orelse):
+            continue
+        d = n.test.comparators[0].id
+        key = n.test.left
+        stores = [s for s in n.body if isinstance(s, ast.Assign) and isinstance(s.targets[0], ast.Subscript)
+                  and unparse(s.targets[0].value) == d and unparse(s.targets[0].slice) == unparse(key)]
+        if len(stores) != 1 or len(n.body) != 1:
+            continue
+        knames = {x.id for x in ast.walk(key) if isinstance(x, ast.Name)}
+        vnames = {x.id for x in ast.walk(stores[0].value) if isinstance(x, ast.Name)}
+        kdeps = closure(knames) & loopvars
+        vdeps = closure(vnames, stop={d}) & loopvars
+        # comprehension-local variables of the value are not dependencies
+        comp = {x.id for c in ast.walk(stores[0].value) if isinstance(c, ast.comprehension) for x in ast.walk(c.target) if isinstance(x, ast.Name)}
+        yield n, d, key, vdeps - comp, kdeps
